@@ -626,3 +626,82 @@ func TestOrderUnderBacklog(t *testing.T) {
 		vkit.Record(t.Name(), c, vkit.OK(true, "order-under-backlog"))
 	}
 }
+
+// TestCancelBehindBacklog: a watcher cancels its request while notifications for its channel are still waiting in the
+// presence queue (the sender is stuck on another watcher that does not read). The cancel is confirmed; whatever is
+// delivered afterwards must not reach the watcher that cancelled. The sender is blocked on a notification of a channel
+// only the other watcher follows (x/), so nothing for the cancelling watcher is in flight when it cancels.
+func TestCancelBehindBacklog(t *testing.T) {
+	rounds := vkit.N(3)
+	for round := 0; round < rounds; round++ {
+		e, err := getEnv()
+		if err != nil {
+			t.Fatal(err)
+		}
+		c := map[string]int{"round": round}
+		fail := func(msg string) {
+			shared = nil
+			vkit.ReportFailure(t.Name(), c, msg, "")
+			t.Fatal(msg)
+		}
+		w2 := e.b.Attach("canceller")
+		act := e.b.Attach("mover")
+		if err := w2.Connect("canceller", "w2", nil); err != nil {
+			t.Fatal(err)
+		}
+		if err := act.Connect("mover", "mv", nil); err != nil {
+			t.Fatal(err)
+		}
+		yes, no := true, false
+		if _, err := presence(w2, e.key, "a/", false, &yes); err != nil {
+			fail(err.Error())
+		}
+		if _, err := e.drain(); err != nil {
+			fail(err.Error())
+		}
+		// the sender gets stuck on the permanent watcher with notifications of x/ (which w2 does not follow)
+		e.perm.Pause()
+		for i := 0; i < 4; i++ {
+			if _, _, err := act.Subscribe(uint16(10+i), fmt.Sprintf("%s/x/stuck%d-%d/", e.key, round, i)); err != nil {
+				e.perm.Resume()
+				fail(err.Error())
+			}
+		}
+		time.Sleep(50 * time.Millisecond)
+		// transitions on the channel w2 watches: their notifications queue up behind the stuck sender
+		k := 3 + round
+		for i := 0; i < k; i++ {
+			if _, _, err := act.Subscribe(uint16(20+i), fmt.Sprintf("%s/a/late%d-%d/", e.key, round, i)); err != nil {
+				e.perm.Resume()
+				fail(err.Error())
+			}
+		}
+		// nothing for w2 has been sent yet (the queue is stuck); it cancels and the cancel is confirmed
+		early, err := w2.Barrier()
+		if err != nil {
+			e.perm.Resume()
+			fail(err.Error())
+		}
+		if _, err := presence(w2, e.key, "a/", false, &no); err != nil {
+			e.perm.Resume()
+			fail(err.Error())
+		}
+		e.perm.Resume()
+		if _, err := e.drain(); err != nil { // the queue has been worked off completely
+			fail(err.Error())
+		}
+		late, err := w2.Barrier()
+		if err != nil {
+			fail(err.Error())
+		}
+		if len(late) > 0 {
+			fail(fmt.Sprintf("a watcher cancelled its presence request on a/ (confirmed) while %d notifications were still queued; %d of them were delivered to it afterwards (%d had reached it before the cancel)", k, len(late), len(early)))
+		}
+		act.Close()
+		w2.Close()
+		if _, err := e.drain(); err != nil {
+			fail(err.Error())
+		}
+		vkit.Record(t.Name(), c, vkit.OK(true, "cancel-behind-backlog"))
+	}
+}
